@@ -51,7 +51,7 @@ def run(tier, seed, replay):
     cov["exhaustive"] = True
     code, nv = verdict.finish()
     lib.write_evidence(PROP, tier, seed, cov, [
-        "setting a whole record field one of whose sub-fields is excluded is left unspecified (the writer silently drops the sub-field) and skipped",
+        "setting a whole record field one of whose sub-fields is excluded: unspecified for the ENCODER (refuse, or drop the sub-field) and not judged there; the DOCUMENT is illegal iff the value carries the sub-field, and decoder and server are judged on that",
         "deleting a required field can only be expressed in a document (the generated struct has no slot for it): covered on the decode side by the C06/C07 harness documents",
     ], time.time() - t0, nv)
     return code
